@@ -343,9 +343,12 @@ func (l *Lexer) advanceChar() (rune, bool) {
 // Advance the next `n` characters
 func (l *Lexer) advanceChars(n int) bool {
 	for i := 0; i < n; i++ {
-		_, ok := l.advanceChar()
+		char, ok := l.advanceChar()
 		if !ok {
 			return false
+		}
+		if char == '\n' {
+			l.incrementLine()
 		}
 	}
 
@@ -1004,6 +1007,9 @@ func (l *Lexer) character() *token.Token {
 		if !ok {
 			return l.lexError(unterminatedCharLiteralMessage)
 		}
+		if ch == '\n' {
+			l.incrementLine()
+		}
 		lexemeBuff.WriteRune(ch)
 	}
 	if l.matchChar(charTerminator) {
@@ -1025,6 +1031,9 @@ func (l *Lexer) rawCharacter() *token.Token {
 	ch, ok := l.advanceChar()
 	if !ok {
 		return l.lexError(unterminatedCharLiteralMessage)
+	}
+	if ch == '\n' {
+		l.incrementLine()
 	}
 	char = string(ch)
 	if l.matchChar(charTerminator) {
@@ -1126,6 +1135,8 @@ func (l *Lexer) numberLiteral(startDigit rune) *token.Token {
 			}
 		case '8':
 			return l.tokenWithValue(token.INT8, lexeme.String())
+		case '\n':
+			l.incrementLine()
 		}
 		return l.lexError("invalid sized integer literal")
 	case 'u':
@@ -1149,6 +1160,8 @@ func (l *Lexer) numberLiteral(startDigit rune) *token.Token {
 			}
 		case '8':
 			return l.tokenWithValue(token.UINT8, lexeme.String())
+		case '\n':
+			l.incrementLine()
 		}
 		return l.lexError("invalid sized integer literal")
 	}
@@ -1183,6 +1196,8 @@ func (l *Lexer) numberLiteral(startDigit rune) *token.Token {
 			if l.matchChar('2') {
 				return l.tokenWithValue(token.FLOAT32, lexeme.String())
 			}
+		case '\n':
+			l.incrementLine()
 		}
 		return l.lexError("invalid sized float literal")
 	}
@@ -1967,6 +1982,8 @@ func (l *Lexer) scanNormal(afterMethodCallOperator bool) *token.Token {
 						if l.matchChar('2') {
 							return l.tokenWithValue(token.FLOAT32, lexeme.String())
 						}
+					case '\n':
+						l.incrementLine()
 					}
 					return l.lexError("invalid sized float literal")
 				}
@@ -2368,9 +2385,12 @@ func (l *Lexer) scanNormal(afterMethodCallOperator bool) *token.Token {
 		case '"':
 			if l.mode() == stringInterpolationMode {
 				for {
-					_, ok := l.advanceChar()
+					ch, ok := l.advanceChar()
 					if !ok {
 						return l.lexError(unterminatedStringError)
+					}
+					if ch == '\n' {
+						l.incrementLine()
 					}
 					if l.matchChar('"') {
 						break
